@@ -446,9 +446,9 @@ func TestVerifC04(t *testing.T) {
 	w := bufio.NewWriterSize(f, 1<<20)
 	defer w.Flush()
 
-	perKind, maxSteps, maxAdds := 4, 60, 7
+	perKind, maxSteps, maxAdds := 5, 90, 8
 	if tier == "thorough" {
-		perKind, maxSteps, maxAdds = 40, 120, 12
+		perKind, maxSteps, maxAdds = 40, 160, 12
 	}
 	if v, err := strconv.Atoi(os.Getenv("VERIF_C04_CASES")); err == nil && v > 0 {
 		perKind = v
